@@ -312,6 +312,61 @@ def cache_discipline(chk, repo, P, full=False):
 
     if not full:
         return
+    # ---- index arithmetic of the access path (linear forms) -----------------------------
+    hi = methods["has_ind"]
+    want = {"ind": 1, "L": -1, "1": 1}
+    loops = [n for n in ast.walk(hi) if isinstance(n, ast.For)
+             and isinstance(n.iter, ast.Call) and dotted(n.iter.func) == "range"
+             and len(n.iter.args) == 1]
+    got = linear_form(loops[0].iter.args[0], hi.args.args[1].arg) \
+        if loops else None
+    chk.ob(P + ".has-ind-pull-count", "LazyList.has_ind", got == want,
+           "has_ind(ind) must pull exactly ind - len(generated) + 1 more "
+           f"items before answering (found {got}): one fewer truncates every "
+           "iteration by one item, one more over-pulls", F, hi.lineno,
+           witness="list(LazyList([1,2,3])) loses its last item",
+           sample={"pulls": "ind - len(self.generated) + 1"})
+    cmp_ok = False
+    for n in ast.walk(hi):
+        if isinstance(n, ast.If) and isinstance(n.test, ast.Compare) and len(
+                n.test.ops) == 1:
+            l = linear_form(n.test.left, hi.args.args[1].arg)
+            r = linear_form(n.test.comparators[0], hi.args.args[1].arg)
+            if l is not None and r is not None:
+                diff = {k: l.get(k, 0) - r.get(k, 0) for k in set(l) | set(r)}
+                diff = {k: v for k, v in diff.items() if v}
+                # ind < L   <=>  ind - L < 0
+                if isinstance(n.test.ops[0], ast.Lt) and diff == {
+                        "ind": 1, "L": -1}:
+                    cmp_ok = True
+                if isinstance(n.test.ops[0], ast.LtE) and diff == {
+                        "ind": 1, "L": -1, "1": 1}:
+                    cmp_ok = True
+    chk.ob(P + ".has-ind-cached-test", "LazyList.has_ind", cmp_ok,
+           "has_ind must treat exactly the indices below len(generated) as "
+           "already cached (`ind < len(self.generated)`)", F, hi.lineno)
+    gi = methods["__getitem__"]
+    pull_ok = False
+    for n in ast.walk(gi):
+        if isinstance(n, ast.While) and isinstance(n.test, ast.Compare) \
+                and len(n.test.ops) == 1:
+            l = linear_form(n.test.left, "position", var="position")
+            r = linear_form(n.test.comparators[0], "position", var="position")
+            if l is None or r is None:
+                continue
+            diff = {k: l.get(k, 0) - r.get(k, 0) for k in set(l) | set(r)}
+            diff = {k: v for k, v in diff.items() if v}
+            if isinstance(n.test.ops[0], ast.Lt) and diff == {
+                    "L": 1, "position": -1, "1": -1}:
+                pull_ok = True
+            if isinstance(n.test.ops[0], ast.LtE) and diff == {
+                    "L": 1, "position": -1}:
+                pull_ok = True
+    chk.ob(P + ".getitem-pull-bound", "LazyList.__getitem__", pull_ok,
+           "l[position] must pull while len(generated) < position + 1 "
+           "(exactly enough for the index to be cached)", F, gi.lineno,
+           witness="LazyList(iter([1,2,3]))[2]")
+
     chk.explanation = (
         "Decides the clause 'observations never change the sequence the lazy "
         "list denotes' through the cache discipline: every write to "
@@ -324,6 +379,32 @@ def cache_discipline(chk, repo, P, full=False):
         "(wrap-around, slices, equality).")
     chk.assumptions += ["LazyList instances are only built by the class "
                         "constructor"]
+
+
+def linear_form(e, indname, var="ind"):
+    """{var: a, 'L': b, '1': c} for a*var + b*len(self.generated) + c, or
+    None when the expression is not of that form."""
+    if isinstance(e, ast.Constant) and isinstance(e.value, int):
+        return {"1": e.value} if e.value else {}
+    if isinstance(e, ast.Name) and e.id == indname:
+        return {var: 1}
+    if isinstance(e, ast.Call) and dotted(e.func) == "len" and e.args and \
+            is_self_attr(e.args[0], CACHE):
+        return {"L": 1}
+    if isinstance(e, ast.UnaryOp) and isinstance(e.op, ast.USub):
+        x = linear_form(e.operand, indname, var)
+        return None if x is None else {k: -v for k, v in x.items()}
+    if isinstance(e, ast.BinOp) and isinstance(e.op, (ast.Add, ast.Sub)):
+        l = linear_form(e.left, indname, var)
+        r = linear_form(e.right, indname, var)
+        if l is None or r is None:
+            return None
+        sign = 1 if isinstance(e.op, ast.Add) else -1
+        out = dict(l)
+        for k, v in r.items():
+            out[k] = out.get(k, 0) + sign * v
+        return {k: v for k, v in out.items() if v}
+    return None
 
 
 def iteration_rules(chk, repo, RULE):
